@@ -1,7 +1,7 @@
 CFG = P(
     "c15",
     partial=[
-        "the MIME body extraction of the `mail_parser` crate is a stand-in function in the model (`mimeBody`: fixed prelude, cut at the first boundary line) compared with the crate by the run only; replies whose data contains the boundary text are judged by the oracle but not compared with the model",
+        "the MIME body extraction of the `mail_parser` crate is a stand-in function in the model (`mimeBody`: fixed prelude, cut at the first `--RibbitBoundary` marker wherever it stands, one line end removed) compared with the crate on every V1 query of the run, not proved of the crate",
         "axum routing/percent-decoding, reqwest URL handling, socket timeouts (10 s read timeout), task-per-connection scheduling and 'keeps answering other clients' are observed by the run only (storm / hold / conn lines with a probe client); the model is a pure function of (database, request), which is what makes concurrent requests independent",
         "SHA-256 is an arbitrary function H in the theorems (only: 64 hex digits out); the executable FIPS 180-4 transcription in Spec/Sha256Fips.lean is compared with the sha2 crate through every V1 reply of the run",
         "JSON decoding of the database file (serde) is outside the model: records enter as decoded strings",
@@ -17,8 +17,8 @@ CFG = P(
     ],
 )
 TEXT = {
-    "text": "Lean 4 theorems about a model of the Ribbit server and of this project's client reader: for every record that passes validate and whose emitted strings are Clean (no '|', no line break, build parses as i64, keyring is hex, cdn path without trailing blank) and every sequence number < 2^32, the BPSV reader applied to the server's versions/bgdl/cdns text returns exactly the 7 (5) region rows carrying the record's strings, typed; the same through the V1 MIME wrapper for every hash function (the checksum epilogue the server writes is found and verified by the client's extract_checksum for every body); latest_build is the first record with the maximal build_time; one Lean counter-witness per excluded class (pipe, line break, non-numeric build, non-hex keyring, edge blank, '#' product, MIME look-alike, seqn ≥ 2^32). The model is tied to the code by running the real server in-process on loopback and querying it with the real RibbitClient (V1, V2) and TactClient (HTTP) over generated databases (strings from a grammar that includes every excluded class), raw/malformed/oversized/non-UTF-8/unterminated request lines from concurrent clients with a probe client, and the reader alone on edited documents.",
+    "text": "Lean 4 theorems about a model of the Ribbit server and of this project's client reader: for every record that passes validate and whose emitted strings are Clean (no '|', no line break, build parses as i64, keyring is hex, cdn path without trailing blank) and every sequence number < 2^32, the BPSV reader applied to the server's versions/bgdl/cdns text returns exactly the 7 (5) region rows carrying the record's strings, typed; the same through the V1 MIME wrapper for every hash function (the checksum epilogue the server writes is found and verified by the client's extract_checksum for every body); latest_build is the first record with the maximal build_time; one Lean counter-witness per excluded class (pipe, line break, non-numeric build, non-hex keyring, edge blank, '#' product, MIME look-alike, boundary text in a field, seqn ≥ 2^32). The model is tied to the code by running the real server in-process on loopback and querying it with the real RibbitClient (V1, V2) and TactClient (HTTP) over generated databases (strings from a grammar that includes every excluded class), raw/malformed/oversized/non-UTF-8/unterminated request lines from concurrent clients with a probe client, and the reader alone on edited documents.",
     "design_ref": "DESIGN.md §6 C15",
-    "note": "Partial: mail_parser, axum, reqwest, timeouts and concurrency are run-only. Known findings: validate admits separators / non-numeric build / unvalidated keyring; edge blanks; '#' products in the summary; V2 replies that look like MIME. One fix: is_v1_mime_response panicked on a multi-byte character across byte 512.",
+    "note": "Partial: mail_parser, axum, reqwest, timeouts and concurrency are run-only. Known findings: validate admits separators / non-numeric build / unvalidated keyring; edge blanks; '#' products in the summary; V2 replies that look like MIME; the MIME boundary text inside a field truncates V1 replies. One fix: is_v1_mime_response panicked on a multi-byte character across byte 512.",
     "technique": "Lean 4 proof (round trip parse∘format under an explicit Clean predicate, induction over the region list and the strings) + end-to-end differential run + independent oracle",
 }
